@@ -169,7 +169,7 @@ fn routes(max_len: usize) -> Vec<String> {
 }
 
 fn header_maps() -> Vec<Vec<(String, String)>> {
-    let menu: Vec<(String, String)> = vec![("k".into(), "v".into()), ("".into(), "".into()), ("timeout".into(), "18446744073709551615".into()), ("é\0".into(), " ".into()), ("big".into(), "y".repeat(300))];
+    let menu: Vec<(String, String)> = vec![("k".into(), "v".into()), ("".into(), "".into()), ("timeout".into(), "18446744073709551615".into()), ("é\0".into(), " ".into()), ("big".into(), "y".repeat(300)), ("K".into(), "upper-case name".into())];
     let mut out = vec![vec![]];
     for i in 0..menu.len() {
         out.push(vec![menu[i].clone()]);
@@ -567,7 +567,7 @@ impl Check for C07 {
         CheckMeta {
             property: "C07",
             level: "exploration",
-            rule: "bounded-exhaustive inputs to the real codecs: every route over {'/', 'a', 'é', NUL, ' '} up to length 2 (quick) / 3 (thorough) plus a 1 KiB route x 26 header maps (0-3 entries incl. empty key/value, u64::MAX timeout, 300-byte value) x bodies {0,1,255,256,65536}; all 8 status codes x maps x bodies; header frames (through the route, through one header value) and bodies of every size within -20..+4 bytes of every power of two 2^7..2^17 (quick) / 2^20 (thorough), compared byte for byte with the documented layout and round-tripped whole and cut at the boundary; all 65536 versions x 4 reserved bytes; all 65536 status codes; every strict prefix, single-byte substitution (5 values quick / all 255 thorough) over preamble, length prefixes and header, hostile length prefixes, every 1-cut and 2-cut chunking with Pending in between; distinct = distinct (message shape / mutation class)".into(),
+            rule: "bounded-exhaustive inputs to the real codecs: every route over {'/', 'a', 'é', NUL, ' '} up to length 2 (quick) / 3 (thorough) plus a 1 KiB route x 42 header maps (0-3 entries incl. empty key/value, names differing only in case, u64::MAX timeout, 300-byte value) x bodies {0,1,255,256,65536}; all 8 status codes x maps x bodies; header frames (through the route, through one header value) and bodies of every size within -20..+4 bytes of every power of two 2^7..2^17 (quick) / 2^20 (thorough), compared byte for byte with the documented layout and round-tripped whole and cut at the boundary; all 65536 versions x 4 reserved bytes; all 65536 status codes; every strict prefix, single-byte substitution (5 values quick / all 255 thorough) over preamble, length prefixes and header, hostile length prefixes, every 1-cut and 2-cut chunking with Pending in between; distinct = distinct (message shape / mutation class)".into(),
             assumptions: vec!["header maps with more than one entry are compared after parsing (map order is unspecified); single-entry and empty maps are compared byte for byte with the reference encoder".into()],
             exhaustive: true,
         }
